@@ -112,6 +112,38 @@ fn child(spec: &str) -> i32 {
     }
 }
 
+/// run with a wall-clock limit; exit code -9 = killed after `secs`
+fn run_timeout(cmd: &mut Command, secs: u64) -> (i32, String, String) {
+    use std::io::Read;
+    use std::process::Stdio;
+    let mut child = match cmd.stdin(Stdio::null()).stdout(Stdio::piped()).stderr(Stdio::piped()).spawn() {
+        Ok(c) => c,
+        Err(e) => return (-1, String::new(), format!("spawn failed: {e}")),
+    };
+    let mut so = child.stdout.take().unwrap();
+    let mut se = child.stderr.take().unwrap();
+    let t1 = std::thread::spawn(move || { let mut b = Vec::new(); let _ = so.read_to_end(&mut b); b });
+    let t2 = std::thread::spawn(move || { let mut b = Vec::new(); let _ = se.read_to_end(&mut b); b });
+    let t0 = std::time::Instant::now();
+    let rc = loop {
+        match child.try_wait() {
+            Ok(Some(s)) => break s.code().unwrap_or(-1),
+            Ok(None) => {
+                if t0.elapsed().as_secs() > secs {
+                    let _ = child.kill();
+                    let _ = child.wait();
+                    break -9;
+                }
+                std::thread::sleep(std::time::Duration::from_millis(5));
+            }
+            Err(_) => break -1,
+        }
+    };
+    let o = t1.join().unwrap_or_default();
+    let e = t2.join().unwrap_or_default();
+    (rc, String::from_utf8_lossy(&o).into_owned(), String::from_utf8_lossy(&e).into_owned())
+}
+
 // ------------------------------------------------------------------ real make
 
 const MF: &str = "__bgverif_mf__";
@@ -480,9 +512,10 @@ fn part_b(rng: &mut Rng, n: usize, n_make: usize, table_fixed: bool, st: &mut St
             continue;
         }
         // predicted by the model?  (model unmodelled = cannot predict)
+        // the model predicts what make does: the same reading, or (model `none`) make rejecting the line
         let predicted = match &mparse {
             Some((t, d)) => real_entries.as_ref() == Some(&render(t, d)),
-            None => false,
+            None => real_entries.is_none(),
         };
         let wit = input(vec![("make_reads", real_entries.clone().map_or("null".into(), |r| jlist(&r)))]);
         if (rh || rd) && predicted {
@@ -491,7 +524,7 @@ fn part_b(rng: &mut Rng, n: usize, n_make: usize, table_fixed: bool, st: &mut St
             st.known("depfile_backslash", wit);
         } else if rt && predicted {
             st.known("depfile_trailing_space", wit);
-        } else if mparse.is_none() && (rh || rd || rb || rt) {
+        } else if mparse.is_none() && real_entries.is_some() && (rh || rd || rb || rt) {
             // in a known region but the model does not follow make here ($x after a backslash …)
             st.inc("B.region_unpredicted");
         } else {
@@ -1040,8 +1073,16 @@ fn run_case(c: &Case, idx: usize, table_fixed: bool, st: &mut Stats, self_exe: &
     for k in &c.extra_set {
         cmd.env(k, "-DBGV_EXTRA=1");
     }
-    let (rc, stdout, stderr) = run(&mut cmd);
+    let (rc, stdout, stderr) = run_timeout(&mut cmd, 120);
     st.inc("C.library_runs");
+    if rc == -9 {
+        if model_err {
+            st.inc("C.model_error_timeout");
+            return WholeOut { ok: true };
+        }
+        fail(st, "correspondence", "bindgen-timeout", vec![]);
+        return WholeOut { ok: false };
+    }
     if model_err {
         st.inc("C.model_error_cases");
         // a missing include in an active region / runaway recursion: bindgen must not succeed
@@ -1168,9 +1209,10 @@ fn run_case(c: &Case, idx: usize, table_fixed: bool, st: &mut Stats, self_exe: &
         let rd = all_names.iter().any(|n| region_dollar(table_fixed, n));
         let rb = all_names.iter().any(|n| region_backslash(n));
         let rtsp = region_trailing_space(&names);
+        // the model predicts what make does: the same reading, or (model `none`) make rejecting the line
         let predicted = match &mparse {
             Some((t, d)) => real_entries.as_ref() == Some(&render(t, d)),
-            None => false,
+            None => real_entries.is_none(),
         };
         let wit = jobj(&[("part", json_str("C")), ("depfile_text", json_str(&dep_text)), ("make_reads", real_entries.clone().map_or("null".into(), |r| jlist(&r))), ("case", case_json(c, &root))]);
         if !all_names.iter().all(|n| in_quantifier(n)) {
@@ -1181,7 +1223,7 @@ fn run_case(c: &Case, idx: usize, table_fixed: bool, st: &mut Stats, self_exe: &
             st.known("depfile_backslash", wit);
         } else if rtsp && predicted {
             st.known("depfile_trailing_space", wit);
-        } else if mparse.is_none() && (rh || rd || rb || rtsp) {
+        } else if mparse.is_none() && real_entries.is_some() && (rh || rd || rb || rtsp) {
             st.inc("C.region_unpredicted");
         } else {
             st.fail("oracle-failure", "depfile-roundtrip", wit);
